@@ -162,8 +162,9 @@ func main() {
 		}
 		want := textgen.Expect(defs)
 		got, exp := p.canon, textgen.Canon(want, textgen.CanonOpt{})
-		if l.OneLine {
-			// member/field doc comments are not rendered on one-line bodies: compare without comments
+		if l.OneLine || l.BlankAfterAttr {
+			// member/field doc comments are not rendered on one-line bodies, and a comment separated from what it annotates
+			// by an attribute AND an empty line is not "directly above" it: compare without comments
 			got, exp = p.bare, textgen.Canon(want, textgen.CanonOpt{NoComments: true})
 		}
 		outcomes.Add(got)
